@@ -318,9 +318,11 @@ def run(gen, scenario, moment=None, reinit=False, idle=8000):
     logging.getLogger("asyncio").setLevel(logging.CRITICAL)
     # the socket has branches that depend on the log level: debug logging is on in half of the runs
     import zlib
-    dbg = zlib.crc32(repr((gen, moment, sorted((k, str(v)) for k, v in scenario.items() if k != "inst"))).encode()) & 1
+    h_ = zlib.crc32(repr((gen, moment, sorted((k, str(v)) for k, v in scenario.items() if k != "inst"))).encode())
+    dbg = h_ & 1
     logging.getLogger("pyairtouch.comms.socket").setLevel(logging.DEBUG if dbg else logging.WARNING)
     env = Env(gen, scenario)
+    env.net.kind_offset = (h_ >> 3) % 6          # which kind of failure a refused connection attempt meets first
     loop = env.loop
     loop.max_passes = 3_000_000
     obs = {"gen": gen, "moment": moment, "idle": idle}
